@@ -840,7 +840,6 @@ func (m *Memory) FindLatest(
 	}
 	s := query.Start
 	e := query.End
-	mach := m.Mach
 
 	return m.Match(ctx, func(
 		now *am.TimeIndex, db []*MemoryRecord,
@@ -881,7 +880,7 @@ func (m *Memory) FindLatest(
 			}
 			// Inactive
 			for _, state := range query.Inactive {
-				if am.IsActiveTick(r.Time.MTimeTracked[mach.Index1(state)]) {
+				if am.IsActiveTick(r.Time.MTimeTracked[m.Index1(state)]) {
 					continue records
 				}
 			}
